@@ -145,10 +145,17 @@ fn run_b(case: &CaseB, record: Option<u64>) -> Result<Outcome, String> {
 fn hybrid_label(en: &EnB, msg: &str) -> Option<&'static str> {
   let driver_only = msg.starts_with("[driver]");
   // the real driver not telling the loop about the tablet switch means tablet mode is not entered "immediately"
-  let tablet_missed = msg.starts_with("[driver][tablet]") || msg.starts_with("[driver] [tablet]");
+  // ... and so does a tablet reader that loses, invents or garbles a switch event
+  let tablet_missed = msg.starts_with("[driver][tablet]") || msg.starts_with("[driver] [tablet]") || msg.starts_with("[tablet]");
   // the real driver waiting longer than the loop asked, or reporting a time-out before the time has passed, is the timer's business
   let timer = msg.starts_with("[driver][timer]");
   if en.c18 && !driver_only { Some("C18-hybrid") } else if en.c11 && timer { Some("C11-hybrid") } else if en.c09 && timer { Some("C09-hybrid") } else if en.c10 { Some("C10-hybrid") } else if en.c12 && tablet_missed { Some("C12-hybrid") } else { None }
+}
+
+/// The first noted disagreement that is the enabled property's business.
+pub fn hybrid_verdict(en: &EnB, o: &Outcome) -> Option<Violation> {
+  for m in o.byte_error.iter().chain(o.byte_notes.iter()) { if let Some(lab) = hybrid_label(en, m) { return Some(Violation::new(lab, o.trace.len(), m.clone())); } }
+  None
 }
 
 /// Execute in replay mode and evaluate the enabled projection.
@@ -157,7 +164,7 @@ pub fn replay_b(case: &CaseB, en: &EnB, obs: &mut ObsB) -> Result<Option<Violati
   let l = case.layout.clone();
   let en2 = *en;
   let r = catch_unwind(AssertUnwindSafe(|| check_trace(&l, &o.trace, &o.result, &en2, obs))).map_err(|e| format!("reference loop panicked: {}", panic_msg(&e)))?;
-  if r.is_none() { if let Some(be) = &o.byte_error { if let Some(lab) = hybrid_label(en, be) { return Ok(Some(Violation::new(lab, o.trace.len(), be.clone()))); } } }
+  if r.is_none() { if let Some(v) = hybrid_verdict(en, &o) { return Ok(Some(v)); } }
   Ok(r)
 }
 
@@ -303,7 +310,7 @@ impl Campaign for LoopCampaign {
       Ok(v) => v,
       Err(e) => { harness_error = Some(format!("reference loop panicked: {}", panic_msg(&e))); None }
     };
-    if verdict.is_none() { if let Some(be) = &out.byte_error { if let Some(lab) = hybrid_label(&self.en, be) { verdict = Some(Violation::new(lab, out.trace.len(), be.clone())); } } }
+    if verdict.is_none() { verdict = hybrid_verdict(&self.en, &out); }
     let mut fail_case = case.clone();
     let mut state_hashes = vec![obs.shape];
     let mut digest = out.digest;
